@@ -1,11 +1,113 @@
 import TdVerif.Sexp
+import TdVerif.Model.C11Consolidate
 
 namespace TdVerif.Drive
-open TdVerif Sexp
+open TdVerif Sexp TdVerif.C11
+
+namespace C11D
+
+def path? : Sexp → Option (List String)
+  | .list l => l.mapM asAtom?
+  | _ => none
+
+def optNames? : Sexp → Option (Option (List String))
+  | .atom "none" => some none
+  | .list l => (l.mapM asAtom?).map some
+  | _ => none
+
+def optDev? : Sexp → Option (Option String)
+  | .atom "none" => some none
+  | .atom s => some (some s)
+  | _ => none
+
+def bool? : Sexp → Option Bool
+  | .atom "true" => some true
+  | .atom "false" => some false
+  | _ => none
+
+def leafMeta? (d i sh : Sexp) : Option LeafMeta := do
+  let d ← asAtom? d; let i ← asNat? i; let sh ← asList? sh; let sh ← nats? sh
+  pure ⟨d, i, sh⟩
+
+def node? : Sexp → Option (List String × NodeMeta)
+  | .list [p, .list b, n, d, l] => do
+    pure (← path? p, ⟨← nats? b, ← optNames? n, ← optDev? d, ← bool? l⟩)
+  | _ => none
+
+def entry? : Sexp → Option Entry
+  | .list [p, d, i, sh, .list bytes] => do
+    pure ⟨← path? p, ← leafMeta? d i sh, .own (← nats? bytes)⟩
+  | _ => none
+
+def op? : Sexp → Option Op
+  | .list [.atom "consolidate", f] => do pure (.consolidate (← bool? f))
+  | .list [.atom "set", p, d, i, sh, .list bytes] => do pure (.set (← path? p) (← leafMeta? d i sh) (← nats? bytes))
+  | .list [.atom "del", p] => do pure (.del (← path? p))
+  | .list [.atom "inplace", p, .list bytes] => do pure (.setInplace (← path? p) (← nats? bytes))
+  | .list [.atom "lock"] => some .lock
+  | .list [.atom "unlock"] => some .unlock
+  | .list [.atom "names", n] => do pure (.setNames (← optNames? n))
+  | .list [.atom "rename", a, b] => do pure (.rename (← path? a) (← path? b))
+  | _ => none
+
+def pathSx (p : List String) : Sexp := .list (p.map .atom)
+
+def nodeSx (p : List String × NodeMeta) : Sexp :=
+  .list [pathSx p.1, ofNats p.2.batch,
+    (match p.2.names with | none => .atom "none" | some l => .list (l.map .atom)),
+    (match p.2.device with | none => .atom "none" | some d => .atom d),
+    .atom (if p.2.locked then "true" else "false")]
+
+def obsSx (o : Obs) : Sexp :=
+  .list [.list (o.nodes.map nodeSx),
+    .list (o.leaves.map fun (k, l) => .list [pathSx k, .atom l.lm.dtype, ofNats l.lm.shape, ofNats l.bytes])]
+
+def slotSx (s : Slot) : Sexp := ofNats [s.start, s.stop, s.pad]
+
+end C11D
+open C11D
 
 /-- line-protocol handler for C11: commands are named `c11.<something>` -/
 def handleC11 (cmd : String) (args : List Sexp) : Option Sexp :=
   match cmd, args with
+  -- (c11.layout (n…)) -> ((start stop pad)…) total ; pinned padding as second answer
+  | "c11.layout", [.list ns] => do
+      let ns ← nats? ns
+      pure (.list [.list ((layout ns).map slotSx), ofNat (totalSize ns), .list ((layoutPinned ns).map slotSx)])
+  -- (c11.encode (bytes…)…) -> cat bytes
+  | "c11.encode", bs => do
+      let bs ← bs.mapM fun b => (asList? b).bind nats?
+      pure (ofNats (encodeCat bs))
+  -- (c11.threaded (order…) (bytes…)…) -> storage after the tasks ran in that order over garbage
+  | "c11.threaded", (.list order) :: bs => do
+      let order ← nats? order
+      let bs ← bs.mapM fun b => (asList? b).bind nats?
+      let tasks := tasksFrom 0 bs
+      let ts := order.filterMap fun i => tasks[i]?
+      pure (ofNats ((runAssign (fun _ => 255) ts).toList (encodeCat bs).length))
+  -- (c11.decode (storage…) ((dtype itemsize (shape) start stop pad)…)) -> leaves or err
+  | "c11.decode", [.list st, .list specs] => do
+      let st ← nats? st
+      let specs ← specs.mapM fun s => match s with
+        | Sexp.list [d, i, sh, a, b, c] => do
+          pure ((← leafMeta? d i sh), (⟨← asNat? a, ← asNat? b, ← asNat? c⟩ : Slot))
+        | _ => none
+      match decodeAll st (specs.map (·.1)) (specs.map (·.2)) with
+      | some ls => pure (tagged "ok" (ls.map fun l => ofNats l.bytes))
+      | none => pure (.atom "err")
+  -- (c11.history (nodes…) (entries…) (ops…)) -> (fresh layout storage fixed pinned obs)
+  | "c11.history", [.list nodes, .list entries, .list ops] => do
+      let nodes ← nodes.mapM node?
+      let entries ← entries.mapM entry?
+      let ops ← ops.mapM op?
+      let s := run ⟨⟨nodes, entries⟩, none⟩ ops
+      let fresh := match s.snap with
+        | none => "nosnap"
+        | some sn => if describes sn s.td then "fresh" else "stale"
+      let lay := match s.snap with
+        | none => Sexp.atom "none"
+        | some sn => .list [.list (sn.leaves.map fun p => .list [pathSx p.1, .atom p.2.1.dtype, ofNats p.2.1.shape, slotSx p.2.2]), ofNats sn.storage]
+      pure (.list [.atom fresh, lay, obsSx (reduceFixed s), obsSx (reducePinned s), obsSx (observe s)])
   | _, _ => none
 
 end TdVerif.Drive
